@@ -22,8 +22,13 @@ def check_one(roi_rec, inside, band, variant):
     elems = [(x, y) for x in xs for y in ys]
     rng = np.random.RandomState(variant)
     rng.shuffle(elems)
+    # plotting order of the categories: sorted labels, or (odd variants) an explicit order given to the component
     xlab = sorted(LABELS[:nx])
     ylab = sorted(LABELS[:ny])
+    explicit = variant % 2 == 1
+    if explicit:
+        xlab = xlab[1:] + xlab[:1]
+        ylab = ylab[::-1]
 
     def column(kind, vals, labels):
         if kind == 'cat':
@@ -37,7 +42,13 @@ def check_one(roi_rec, inside, band, variant):
         extra = 1
         xcol = np.concatenate([xcol, [np.nan] if xk == 'num' else [xlab[0]]])
         ycol = np.concatenate([ycol, [np.nan] if yk == 'num' else [ylab[0]]])
-    d = Data(label='r2s', x=xcol, y=ycol)
+    if explicit:
+        from glue.core.component import CategoricalComponent
+        d = Data(label='r2s')
+        d.add_component(CategoricalComponent(xcol, categories=np.array(xlab)) if xk == 'cat' else xcol, 'x')
+        d.add_component(CategoricalComponent(ycol, categories=np.array(ylab)) if yk == 'cat' else ycol, 'y')
+    else:
+        d = Data(label='r2s', x=xcol, y=ycol)
     xatt, yatt = d.id['x'], d.id['y']
     xcats = d.get_component(xatt).categories if xk == 'cat' else None
     ycats = d.get_component(yatt).categories if yk == 'cat' else None
